@@ -1208,6 +1208,124 @@ pub fn value_cases(tier: &str) -> Vec<Case> {
             }
         }
     }
+
+    // ---- configuration structures with fallible conversions (TryFrom) ----------------------------------
+    for (h, size, blk) in [(0u32, 0u32, 0u16), (1, 2, 3), (u32::MAX, 7, 9), (5, u32::MAX, 11), (13, 17, u16::MAX), (0x01020304, 0x05060708, 0x090A)] {
+        v.push(Case {
+            clause: "C20.S2",
+            conv: "impl From<OpenFile> for ffi::OpenFile".into(),
+            input: format!("handle={h} size={size} max_block={blk}"),
+            run: Box::new(move || {
+                let n = OpenFile { file_handle: FileHandle::new(h), file_size: size, max_block_size: blk };
+                let f: ffi::OpenFile = n.into();
+                Outcome { got: format!("{}/{}/{}", f.file_handle, f.file_size, f.max_block_size), want: format!("{h}/{size}/{blk}") }
+            }),
+        });
+    }
+    for addr in [0u16, 1, 1024, 0xFFEF, 0xFFF0, 0xFFFC, 0xFFFF] {
+        for tx in [248u16, 249, 500, 2048, 4096, 65535] {
+            for rx in [249u16, 2047, 2048, 4096, 8192, 65535] {
+                v.push(Case {
+                    clause: "C20.S3",
+                    conv: "impl TryFrom<ffi::MasterChannelConfig> for MasterChannelConfig".into(),
+                    input: format!("address={addr} tx={tx} rx={rx}"),
+                    run: Box::new(move || {
+                        let level = ffi::DecodeLevel {
+                            application: ffi::AppDecodeLevel::ObjectValues.into(),
+                            transport: ffi::TransportDecodeLevel::Header.into(),
+                            link: ffi::LinkDecodeLevel::Payload.into(),
+                            physical: ffi::PhysDecodeLevel::Length.into(),
+                        };
+                        let f = ffi::MasterChannelConfig { address: addr, decode_level: level, tx_buffer_size: tx, rx_buffer_size: rx };
+                        let got = match MasterChannelConfig::try_from(f) {
+                            Ok(n) => format!(
+                                "Ok(address={} tx={} rx={} decode={:?}/{:?}/{:?}/{:?})",
+                                n.master_address.raw_value(),
+                                n.tx_buffer_size.value(),
+                                n.rx_buffer_size.value(),
+                                n.decode_level.application,
+                                n.decode_level.transport,
+                                n.decode_level.link,
+                                n.decode_level.physical
+                            ),
+                            Err(_) => "Err".to_string(),
+                        };
+                        let a = EndpointAddress::try_new(addr);
+                        let t = BufferSize::<249, 2048>::new(tx as usize);
+                        let r = BufferSize::<2048, 2048>::new(rx as usize);
+                        let want = match (a, t, r) {
+                            (Ok(a), Ok(t), Ok(r)) => format!("Ok(address={} tx={} rx={} decode=ObjectValues/Header/Payload/Length)", a.raw_value(), t.value(), r.value()),
+                            _ => "Err".to_string(),
+                        };
+                        Outcome { got, want }
+                    }),
+                });
+            }
+        }
+    }
+    for rt in [0u64, 1, 5000, 3_600_000, 3_600_001] {
+        for ec in 0..8usize {
+            for cl in 0..16usize {
+                for ats in variants::<ffi::AutoTimeSync>() {
+                    for ka in [0u64, 60] {
+                        for ovf in [false, true] {
+                            for mq in [0u16, 16, 65535] {
+                                v.push(Case {
+                                    clause: "C20.S3",
+                                    conv: "impl TryFrom<ffi::AssociationConfig> for AssociationConfig".into(),
+                                    input: format!("response_timeout={rt} event-classes#{ec} classes#{cl} {ats:?} keep_alive={ka}s overflow_scan={ovf} max_queued={mq}"),
+                                    run: Box::new(move || {
+                                        let fe = |k: usize| ffi::EventClasses { class1: bits(k, 0), class2: bits(k, 1), class3: bits(k, 2) };
+                                        let ne = |k: usize| EventClasses::new(bits(k, 0), bits(k, 1), bits(k, 2));
+                                        let (d, e, sc) = (ec, (ec + 3) % 8, (ec + 5) % 8);
+                                        let f = ffi::AssociationConfig {
+                                            response_timeout: rt,
+                                            disable_unsol_classes: fe(d),
+                                            enable_unsol_classes: fe(e),
+                                            startup_integrity_classes: ffi::Classes { class0: bits(cl, 0), class1: bits(cl, 1), class2: bits(cl, 2), class3: bits(cl, 3) },
+                                            auto_time_sync: ats.into(),
+                                            auto_tasks_retry_strategy: ffi::RetryStrategy { min_delay: 1500, max_delay: 70_000 },
+                                            keep_alive_timeout: ka,
+                                            auto_integrity_scan_on_buffer_overflow: ovf,
+                                            event_scan_on_events_available: fe(sc),
+                                            max_queued_user_requests: mq,
+                                        };
+                                        let got = match AssociationConfig::try_from(f) {
+                                            Ok(n) => dbg(&n),
+                                            Err(_) => "Err".to_string(),
+                                        };
+                                        let want = match Timeout::from_millis(rt) {
+                                            Err(_) => "Err".to_string(),
+                                            Ok(t) => {
+                                                let mut n = AssociationConfig::quiet();
+                                                n.response_timeout = t;
+                                                n.disable_unsol_classes = ne(d);
+                                                n.enable_unsol_classes = ne(e);
+                                                n.startup_integrity_classes = Classes::new(bits(cl, 0), ne(cl >> 1));
+                                                n.auto_time_sync = match ats {
+                                                    ffi::AutoTimeSync::None => None,
+                                                    ffi::AutoTimeSync::Lan => Some(TimeSyncProcedure::Lan),
+                                                    ffi::AutoTimeSync::NonLan => Some(TimeSyncProcedure::NonLan),
+                                                    ffi::AutoTimeSync::DirectWriteAbsTime => Some(TimeSyncProcedure::DirectWriteAbsTime),
+                                                };
+                                                n.auto_tasks_retry_strategy = RetryStrategy::new(Duration::from_millis(1500), Duration::from_millis(70_000));
+                                                n.keep_alive_timeout = if ka == 0 { None } else { Some(Duration::from_secs(ka)) };
+                                                n.auto_integrity_scan_on_buffer_overflow = ovf;
+                                                n.event_scan_on_events_available = ne(sc);
+                                                n.max_queued_user_requests = mq as usize;
+                                                dbg(&n)
+                                            }
+                                        };
+                                        Outcome { got, want }
+                                    }),
+                                });
+                            }
+                        }
+                    }
+                }
+            }
+        }
+    }
     v
 }
 
@@ -1216,7 +1334,27 @@ pub fn value_cases(tier: &str) -> Vec<Case> {
 // ---------------------------------------------------------------------------------------
 
 /// impls that are present in the source but deliberately not driven, with the reason
-const NOT_DRIVEN: [(&str, &str); 9] = [
+/// impls exercised only inside a larger conversion or callback adapter that a case does name
+const DRIVEN_INDIRECTLY: [(&str, &str); 16] = [
+    ("impl From<AttrItem> for ffi::AttrItem", "ReadHandler device-attribute callbacks"),
+    ("impl From<BoolAttr> for ffi::BoolAttr", "ReadHandler device-attribute callbacks"),
+    ("impl From<FloatAttr> for ffi::FloatAttr", "ReadHandler device-attribute callbacks"),
+    ("impl From<OctetStringAttr> for ffi::OctetStringAttr", "ReadHandler device-attribute callbacks"),
+    ("impl From<StringAttr> for ffi::StringAttr", "ReadHandler device-attribute callbacks"),
+    ("impl From<TimeAttr> for ffi::TimeAttr", "ReadHandler device-attribute callbacks"),
+    ("impl From<UIntAttr> for ffi::UintAttr", "ReadHandler device-attribute callbacks"),
+    ("impl From<VariationListAttr> for ffi::VariationListAttr", "ReadHandler device-attribute callbacks"),
+    ("impl From<ResponseHeader> for ffi::ResponseHeader", "ReadHandler::begin_fragment / end_fragment"),
+    ("impl From<TaskError> for ffi::$name", "macro body; every expansion is driven as its own enumeration conversion"),
+    ("impl From<dnp3::app::PermissionSet> for ffi::PermissionSet", "inside Permissions, all 512 combinations"),
+    ("impl From<ffi::PermissionSet> for PermissionSet", "inside Permissions, all 512 combinations"),
+    ("impl From<dnp3::outstation::ClassCount> for ffi::ClassCount", "inside BufferState"),
+    ("impl From<dnp3::outstation::TypeCount> for ffi::TypeCount", "inside BufferState"),
+    ("impl From<ffi::CertificateMode> for CertificateMode", "enumeration conversion, named with its full path"),
+    ("impl From<ffi::MinTlsVersion> for MinTlsVersion", "enumeration conversion, named with its full path"),
+];
+
+const NOT_DRIVEN: [(&str, &str); 12] = [
     ("impl From<TimeoutRangeError> for ffi::ParamError", "unit mapping; the source type has no public constructor"),
     ("impl From<crate::TracingInitError> for std::os::raw::c_int", "source type private to dnp3-ffi"),
     ("impl From<crate::runtime::RuntimeError> for std::os::raw::c_int", "source type private to dnp3-ffi"),
@@ -1226,9 +1364,12 @@ const NOT_DRIVEN: [(&str, &str); 9] = [
     ("impl From<std::io::Error> for ffi::ParamError", "unit mapping (any I/O error -> ServerBindError)"),
     ("impl From<&AddressFilter> for dnp3::tcp::AddressFilter", "source type private to dnp3-ffi; identity on its three variants"),
     ("impl From<ffi::LinkIdConfig> for LinkIdConfig", "target has no observable accessors outside the crate"),
+    ("impl TryFrom<ffi::TlsClientConfig> for TlsClientConfig", "reads certificate and key files"),
+    ("fn convert_outstation_config(ffi::OutstationConfig)", "private function, reachable only by creating a live outstation on a socket or serial port; its parts (EventBufferConfig, Features, ClassZeroConfig, DecodeLevel) are driven through their own From impls"),
+    ("fn convert_udp_config(ffi::OutstationUdpConfig)", "private function, reachable only by creating a live UDP outstation"),
 ];
 
-pub fn impl_census() -> Value {
+pub fn impl_census(driven: &[String]) -> Value {
     let mut found: Vec<String> = Vec::new();
     fn walk(dir: &std::path::Path, out: &mut Vec<String>) {
         if let Ok(rd) = std::fs::read_dir(dir) {
@@ -1240,7 +1381,7 @@ pub fn impl_census() -> Value {
                     if let Ok(s) = std::fs::read_to_string(&p) {
                         for l in s.lines() {
                             let t = l.trim();
-                            if t.starts_with("impl From<") {
+                            if t.starts_with("impl From<") || t.starts_with("impl TryFrom<") || t.starts_with("impl<'a> From<") {
                                 out.push(t.trim_end_matches('{').trim().to_string());
                             }
                         }
@@ -1251,10 +1392,33 @@ pub fn impl_census() -> Value {
     }
     walk(std::path::Path::new("/repo/ffi/dnp3-ffi/src"), &mut found);
     found.sort();
+    // an impl counts as driven when a case names it (path prefixes, lifetimes and blanks ignored)
+    fn key(s: &str) -> String {
+        let mut t = s.replace("<'a>", "").replace("<'_>", "").replace("&'a ", "&").replace(' ', "");
+        for p in ["crate::ffi::", "ffi::", "crate::", "dnp3::app::attr::", "dnp3::app::measurement::", "dnp3::app::control::", "dnp3::app::", "dnp3::master::", "dnp3::outstation::database::", "dnp3::outstation::", "dnp3::link::", "dnp3::decode::", "dnp3::tcp::", "dnp3::serial::", "dnp3::udp::", "std::os::raw::", "std::time::"] {
+            t = t.replace(p, "");
+        }
+        t
+    }
+    let driven_keys: Vec<String> = driven.iter().map(|d| key(d)).collect();
+    let listed: Vec<String> = NOT_DRIVEN.iter().chain(DRIVEN_INDIRECTLY.iter()).map(|(a, _)| key(a)).collect();
+    let mut unmatched: Vec<String> = Vec::new();
+    let mut n_driven = 0usize;
+    for f in &found {
+        let k = key(f);
+        if driven_keys.iter().any(|d| d.contains(&k)) {
+            n_driven += 1;
+        } else if !listed.iter().any(|l| l.contains(&k) || k.contains(l.as_str())) {
+            unmatched.push(f.clone());
+        }
+    }
     json!({
         "census": {
             "from_impls_in_binding_source": found.len(),
+            "named_by_a_driven_case": n_driven,
             "not_driven": NOT_DRIVEN.iter().map(|(a, b)| json!({"impl": a, "reason": b})).collect::<Vec<_>>(),
+            "driven_indirectly": DRIVEN_INDIRECTLY.iter().map(|(a, b)| json!({"impl": a, "through": b})).collect::<Vec<_>>(),
+            "neither_named_nor_listed": unmatched,
         }
     })
 }
